@@ -135,7 +135,7 @@ func c03Lookup(c *ctx) {
 					}
 				}
 			}
-			if i%30000 == 0 && qi == 0 && len(cands) >= 2 {
+			if qi < 3 && len(cands) >= 2 && c.R.WantSample() {
 				c.R.Sample(map[string]any{"routes": descs(cs.Routes), "matcher": cs.Matcher, "glob_disabled": cs.NoGlob, "request": q, "winners": descs(winners)})
 			}
 		}
